@@ -1406,11 +1406,12 @@ class DAMP(Command):
     def __init__(self, shx, spline: list):
         super(DAMP, self).__init__(shx, spline)
         values, _ = self._parse_line(spline, intnums=False)
-        self.damp, self.limse = 0, 0
+        self.damp = 0.7
+        self.limse = 15
         if len(values) > 0:
             self.damp = values[0]
         if len(values) > 1:
-            self.damp, self.limse = values
+            self.limse = values[1]
 
     def __repr__(self) -> str:
         if self.limse == 0:
